@@ -109,6 +109,10 @@ def run(ctx):
     if not qe or not qa or not all(e["nils"]["privA"]["quicTransportParameters"] is False for e in qe) \
             or not all(e["nils"]["privA"]["quicTransportParameters"] is True for e in qa):
         raise vlib.Machinery("C31 vacuity: present-but-empty quic_transport_parameters is not distinguished from absent in the parsed hello")
+    for nv in ("ipv4", "ipv6", "bracketed", "zoned", "long"):
+        hit = [e for e in gridok if e["f"]["sni"] == nv]
+        if not hit or not all(e["pub"]["ServerName"] for e in hit):
+            raise vlib.Machinery("C31 vacuity: no parsed grid hello with server_name shape %s" % nv)
     for sv in ("fallback", "grease", "dup"):
         if not any(e["f"]["suites"] == sv for e in gridok):
             raise vlib.Machinery("C31 vacuity: no grid hello with cipher_suites shape %s" % sv)
